@@ -189,6 +189,8 @@ func eval(a *sp.API, c Case) (vals [3]float64, lin16 bool, ok bool) {
 			col = color.Gray{Y: uint8(k[0])}
 		case strings.HasSuffix(c.Entry, "/opaque-custom-64"):
 			col = customColor{uint32(k[0]), uint32(k[1]), uint32(k[2])}
+		default:
+			col, _ = derived(c.Entry, k)
 		}
 		if is16 != (c.Bits == 16) {
 			return vals, false, false
@@ -228,6 +230,9 @@ func check(c Case) (kind, what string) {
 	if strings.Contains(c.Entry, "/Gray") {
 		k = [3]int{k[0], k[0], k[0]}
 	}
+	if _, dk := derived(c.Entry, k); dk != nil {
+		k = *dk
+	}
 	for i := 0; i < 3; i++ {
 		want := ref.EOTF(a.Ref, float64(k[i])/max)
 		got := vals[i]
@@ -252,7 +257,26 @@ func check(c Case) (kind, what string) {
 }
 
 var entries8 = []string{"From8Bit", "ColorFromNRGBA", "ColorFromRGBA", "ColorFromEncodedColor/NRGBA", "ColorFromEncodedColor/RGBA", "LineariseColor/NRGBA", "LineariseColor/RGBA", "ColorFromEncodedColor/Gray", "LineariseColor/Gray"}
-var entries16 = []string{"From16Bit", "ColorFromEncodedColor/NRGBA64", "ColorFromEncodedColor/RGBA64", "LineariseColor/NRGBA64", "LineariseColor/RGBA64", "ColorFromEncodedColor/Gray16-64", "LineariseColor/Gray16-64", "ColorFromEncodedColor/opaque-custom-64", "LineariseColor/opaque-custom-64"}
+var entries16 = []string{"From16Bit", "ColorFromEncodedColor/NRGBA64", "ColorFromEncodedColor/RGBA64", "LineariseColor/NRGBA64", "LineariseColor/RGBA64", "ColorFromEncodedColor/Gray16-64", "LineariseColor/Gray16-64", "ColorFromEncodedColor/opaque-custom-64", "LineariseColor/opaque-custom-64", "ColorFromEncodedColor/YCbCr-64", "LineariseColor/YCbCr-64", "ColorFromEncodedColor/CMYK-64", "LineariseColor/CMYK-64", "ColorFromEncodedColor/paletted-64"}
+
+// derived builds the opaque colours whose 16-bit components are not the drawn codes themselves but follow from
+// them through the standard library's own conversion (JPEG and CMYK pixels): the codes the decode must honour are
+// whatever the colour's RGBA method reports.
+func derived(entry string, k [3]int) (color.Color, *[3]int) {
+	var col color.Color
+	switch {
+	case strings.HasSuffix(entry, "/YCbCr-64"):
+		col = color.YCbCr{Y: uint8(k[0] >> 8), Cb: uint8(k[1]), Cr: uint8(k[2]>>8 ^ k[2])}
+	case strings.HasSuffix(entry, "/CMYK-64"):
+		col = color.CMYK{C: uint8(k[0] >> 8), M: uint8(k[1]), Y: uint8(k[2] >> 8), K: uint8(k[0] ^ k[2])}
+	case strings.HasSuffix(entry, "/paletted-64"):
+		col = color.Palette{color.NRGBA64{R: uint16(k[2]), G: uint16(k[0]), B: uint16(k[1]), A: 65535}}[0]
+	default:
+		return nil, nil
+	}
+	r, g, b, _ := col.RGBA()
+	return col, &[3]int{int(r), int(g), int(b)}
+}
 
 // customColor is an opaque colour of a type the library cannot know
 type customColor struct{ r, g, b uint32 }
